@@ -16,6 +16,7 @@ func checkC01(cx *Ctx, r *Report) {
 	// storage is asked with the request's context (which carries the issuer / tenant in effect): keys, providers and
 	// users are those of this request
 	cx.checkStorageContext(r)
+	cx.checkStorageIsTheApplications(r)
 	// a failed reply must not carry an earlier Success message kept somewhere else (shared with C18)
 	cx.checkSendsWhatItIsGiven(r)
 	// request data must not be shared between requests through recycled buffers (R-POOL, see C15)
